@@ -29,6 +29,9 @@ Dom(t) == CASE t \in {"int", "trk", "shrt", "long"} -> 0..2
 TC(t) == CASE t = "int" -> 1 [] t = "bool" -> 2 [] t = "trk" -> 3 [] t = "mono" -> 4 [] t = "shrt" -> 5
            [] t = "long" -> 6 [] OTHER -> 0
 Ty(alts, i) == alts[i + 1]
+\* type-based forms (in_place_type, emplace<T>, get_if<T>, holds_alternative<T>) need T to occur exactly once
+UniqueAt(alts, j) == Cardinality({k \in 1..Len(alts) : alts[k] = alts[j]}) = 1
+ILL == -98          \* projection of a type-based observer that is ill-formed for this alternative
 \* value of type S converted to type T
 Cv(S, T, v) == IF T = "bool" THEN (IF v = 0 THEN 0 ELSE 1) ELSE IF T \in {"mono", "none"} THEN 0 ELSE v
 B(p) == IF p THEN 1 ELSE 0
@@ -121,6 +124,7 @@ Pre(kind, alts, op, o, x, s) ==
                 /\ x.v \in Dom(Ty(alts, x.i))
                 /\ (kind \in {"optional", "optref"} => x.i = 1)
                 /\ (kind = "expected" /\ op = "emplace" => x.i = 0)
+                /\ (op \in {"ctor_inplace_t", "emplace_t"} => UniqueAt(alts, x.i + 1))
          [] op \in MoveOps \cup {"ctor_copy"} -> x.src = Other(o)
          [] op \in ConvOps \cup {"cmp_mixed", "cmp_mixed_r"} -> Constructible(x.t, alts[2]) /\ x.si \in 0..1 /\ (x.si = 0 => x.v = 0)
          [] op \in {"deref", "arrow", "value", "deref_mv", "write_through"} -> Engaged(kind, ob)
@@ -209,8 +213,8 @@ ObsOne(kind, alts, q, s, ob) ==
     /\ "arrow" \in DOMAIN q => q.arrow = pv
     /\ "gi" \in DOMAIN q => q.gi = [j \in 1..n |-> IF j - 1 = ob.idx THEN pv ELSE NULLV]
     /\ "gic" \in DOMAIN q => q.gic = [j \in 1..n |-> IF j - 1 = ob.idx THEN pv ELSE NULLV]
-    /\ "git" \in DOMAIN q => q.git = [j \in 1..n |-> IF j - 1 = ob.idx THEN pv ELSE NULLV]
-    /\ "holds" \in DOMAIN q => q.holds = [j \in 1..n |-> B(j - 1 = ob.idx)]
+    /\ "git" \in DOMAIN q => q.git = [j \in 1..n |-> IF ~UniqueAt(alts, j) THEN ILL ELSE IF j - 1 = ob.idx THEN pv ELSE NULLV]
+    /\ "holds" \in DOMAIN q => q.holds = [j \in 1..n |-> IF ~UniqueAt(alts, j) THEN ILL ELSE B(j - 1 = ob.idx)]
     /\ "ug" \in DOMAIN q => q.ug = pv
     /\ "sub" \in DOMAIN q => q.sub = pv
     \* visit: <<type code, value, category (1 lvalue, 2 const lvalue), #visitor calls, result passed through>>
